@@ -428,7 +428,7 @@ def _enumerate(tier):
 SUBCHECKS = [
     SubCheck("generated", check, strategy=_strategy, render=render,
              budget={"quick": 2500, "thorough": 60000}, timeout={"quick": 10, "thorough": 20}),
-    SubCheck("shapes", check, enumerate=_enumerate, render=render,
+    SubCheck("shapes", check, enumerate=_enumerate, render=render, exhaustive_tiers=("thorough",),
              timeout={"quick": 10, "thorough": 20},
              exhaustive="3 fixed rule shapes x every ordered triple of distinct indices from {1,2,3,9,10,11,15} x "
                         "file orders (quick: 3 of 6) x 3 calls"),
